@@ -10,10 +10,12 @@
    (X5) the result is returned through RemoveUselessStates.
    (X6) START COMPLETENESS, per pair in hand: for an arbitrary witness symbol ws that is a start symbol of both components (both being start states),
         the product state has been made a start state under ws before the clusters of the pair are looked up.
-   COMPLETENESS (every product edge / start pair is produced) is not decided in this unit. */
+   (X7) EDGE COMPLETENESS, per pair in hand (l, r): for an arbitrary witness (wa, wl2, wr2) with l --wa--> wl2 in lhs and r --wa--> wr2 in rhs (uninterpreted EDGEL / EDGER),
+        PSF(wl2, wr2) has been added to the successors of PSF(l, r) under wa before the next pair is taken from the stack (three nested witness traversals).
+   Not decided: that every pair of start states is initially recorded (the two start loops are only checked for provenance), language equality as such. */
 #include "common/sp_ghost.h"
 AUT *g_lhs, *g_rhs, *g_ret; void *g_res, *g_pmap, *g_pm_param, *m_l, *m_r, *m_res, *g_lcopy, *g_rset, *g_stack;
-uint64_t c_lss, c_rss, c_al, c_ar, c_lsym, c_lstate, c_rstate, c_ssym; _Bool g_work, g_find_hit, g_sss_w, seen_ss, has_ws, r_ws; uint64_t ws; uint8_t g_ret_kind;
+uint64_t c_lss, c_rss, c_al, c_ar, c_lsym, c_lstate, c_rstate, c_ssym; _Bool g_work, g_find_hit, g_sss_w, seen_ss, has_ws, r_ws, hl, hr, seen_sy, cur_sy, seen_l2, cur_l2, seen_r2, g_edge_w; uint64_t ws, wa, wl2, wr2; uint8_t g_ret_kind;
 uint64_t cell_v1, cell_v2, cell_v3, cell_v4, cell_v5, cell_v6; PENTRY cell_pe, cell_act; PENTRY* cell_actp; E_CLU cell_lentry, cell_rentry; SPC cell_spc; SS cell_rs;
 #define TOKLCL ((void*)(uintptr_t)0x1000)   /* cluster of the left component in hand */
 #define TOKRCL ((void*)(uintptr_t)0x2000)   /* cluster of the right component in hand */
@@ -26,11 +28,11 @@ uint64_t cell_v1, cell_v2, cell_v3, cell_v4, cell_v5, cell_v6; PENTRY cell_pe, c
 #define K_RSY ((void*)(uintptr_t)0x40)
 #define K_LST ((void*)(uintptr_t)0x50)
 #define K_RST ((void*)(uintptr_t)0x60)
-#define G_RSUCC c_rstate, cell_v6, cell_pe
-#define G_LSUCC G_RSUCC, c_lstate, cell_v5
+#define G_RSUCC c_rstate, cell_v6, cell_pe, seen_r2, g_edge_w
+#define G_LSUCC G_RSUCC, c_lstate, cell_v5, seen_l2, cur_l2
 #define G_SSYM  c_ssym, cell_v3, cell_v4, g_sss_w, seen_ss
-#define G_LSYMS G_LSUCC, c_lsym, cell_lentry, cell_rentry, cell_spc, cell_rs, g_lcopy, g_rset, g_find_hit
-#define G_WORK  G_LSYMS, G_SSYM, has_ws, r_ws, c_al, c_ar, cell_act, cell_actp, g_work, g_sss_w, seen_ss
+#define G_LSYMS G_LSUCC, seen_sy, cur_sy, c_lsym, cell_lentry, cell_rentry, cell_spc, cell_rs, g_lcopy, g_rset, g_find_hit
+#define G_WORK  G_LSYMS, G_SSYM, has_ws, r_ws, hl, hr, c_al, c_ar, cell_act, cell_actp, g_work, g_sss_w, seen_ss
 #define G_START c_lss, c_rss, cell_v1, cell_v2, cell_pe
 #define CONTRACT_ISECT \
   __CPROVER_requires(v_lhs == g_lhs && v_rhs == g_rhs && v_agg_result == g_ret && v_pTranslMap == g_pm_param && g_ret_kind == 0 && !g_work) \
@@ -42,17 +44,26 @@ uint64_t cell_v1, cell_v2, cell_v3, cell_v4, cell_v5, cell_v6; PENTRY cell_pe, c
 #define LOOPASG_ISECT__L_RSTART , c_rss, cell_v2, cell_pe
 #define LOOP_ISECT__L_RSTART __CPROVER_loop_invariant(END_ISECT__L_RSTART.f0.f0 == 0 && (BEGIN_ISECT__L_RSTART.f0.f0 == 0 || BEGIN_ISECT__L_RSTART.f0.f0 == K_RSS) && STABLE && !g_work)
 #define LOOPASG_ISECT__L_WORK , G_WORK
-#define LOOP_ISECT__L_WORK __CPROVER_loop_invariant(STABLE)
+#define LOOP_ISECT__L_WORK __CPROVER_loop_invariant(STABLE && (!g_work || !(hl && hr) || g_edge_w))
 #define ACT (g_work && cell_act.f0.f0 == c_al && cell_act.f0.f1 == c_ar && v_actState_slot == &cell_act)
 #define CLP (SP_PTR(&v_clusterptr_slot) == 0 || SP_PTR(&v_clusterptr_slot) == TOKRC)
 #define LOOPASG_ISECT__L_LSYMS , G_LSYMS
-#define LOOP_ISECT__L_LSYMS __CPROVER_loop_invariant(END_ISECT__L_LSYMS.f0.f0 == 0 && STABLE && ACT && CLP && v_lcluster_slot == TOKLCL && v_rcluster_slot == TOKRCL)
+#define LOOP_ISECT__L_LSYMS __CPROVER_loop_invariant(END_ISECT__L_LSYMS.f0.f0 == 0 && STABLE && ACT && CLP && v_lcluster_slot == TOKLCL && v_rcluster_slot == TOKRCL) \
+  __CPROVER_loop_invariant((hl && BEGIN_ISECT__L_LSYMS.f0.f0 == 0) ==> seen_sy) \
+  __CPROVER_loop_invariant((hl && hr && seen_sy) ==> g_edge_w)
 #define LOOPASG_ISECT__L_LSSYM , G_SSYM
 #define LOOP_ISECT__L_LSSYM __CPROVER_loop_invariant(END_ISECT__L_LSSYM.f0.f0 == 0 && (BEGIN_ISECT__L_LSSYM.f0.f0 == 0 || BEGIN_ISECT__L_LSSYM.f0.f0 == K_LSY) && STABLE && ACT) \
   __CPROVER_loop_invariant((has_ws && BEGIN_ISECT__L_LSSYM.f0.f0 == 0) ==> seen_ss) \
   __CPROVER_loop_invariant((has_ws && seen_ss && r_ws) ==> g_sss_w)
 #define SUCCCTX (STABLE && ACT && SP_PTR(&v_clusterptr_slot) == TOKRC && v_stateSet_slot == &cell_rs && g_lcopy == (void*)&v_lsymbolToPtrPointer_slot && g_rset == (void*)&v_rstateSet_slot)
 #define LOOPASG_ISECT__L_LSUCC , G_LSUCC
-#define LOOP_ISECT__L_LSUCC __CPROVER_loop_invariant(END_ISECT__L_LSUCC.f0.f0 == 0 && (BEGIN_ISECT__L_LSUCC.f0.f0 == 0 || BEGIN_ISECT__L_LSUCC.f0.f0 == K_LST) && SUCCCTX)
+#define LOOP_ISECT__L_LSUCC __CPROVER_loop_invariant(END_ISECT__L_LSUCC.f0.f0 == 0 && (BEGIN_ISECT__L_LSUCC.f0.f0 == 0 || BEGIN_ISECT__L_LSUCC.f0.f0 == K_LST) && SUCCCTX) \
+  __CPROVER_loop_invariant((hl && cur_sy && BEGIN_ISECT__L_LSUCC.f0.f0 == 0) ==> seen_l2) \
+  __CPROVER_loop_invariant((hl && hr && cur_sy && seen_l2) ==> g_edge_w) \
+  __CPROVER_loop_invariant((hl && hr && !cur_sy && seen_sy) ==> g_edge_w)
 #define LOOPASG_ISECT__L_RSUCC , G_RSUCC
-#define LOOP_ISECT__L_RSUCC __CPROVER_loop_invariant(END_ISECT__L_RSUCC.f0.f0 == 0 && (BEGIN_ISECT__L_RSUCC.f0.f0 == 0 || BEGIN_ISECT__L_RSUCC.f0.f0 == K_RST) && SUCCCTX)
+#define LOOP_ISECT__L_RSUCC __CPROVER_loop_invariant(END_ISECT__L_RSUCC.f0.f0 == 0 && (BEGIN_ISECT__L_RSUCC.f0.f0 == 0 || BEGIN_ISECT__L_RSUCC.f0.f0 == K_RST) && SUCCCTX) \
+  __CPROVER_loop_invariant((hl && hr && cur_sy && cur_l2 && BEGIN_ISECT__L_RSUCC.f0.f0 == 0) ==> seen_r2) \
+  __CPROVER_loop_invariant((hl && hr && cur_sy && cur_l2 && seen_r2) ==> g_edge_w) \
+  __CPROVER_loop_invariant((hl && hr && cur_sy && !cur_l2 && seen_l2) ==> g_edge_w) \
+  __CPROVER_loop_invariant((hl && hr && !cur_sy && seen_sy) ==> g_edge_w)
